@@ -44,6 +44,19 @@
 #define ATOMIC_STORE(x, y) x = y
 #endif
 
+#if defined(BLAKE3_TEAM_BLAKE3_VERIF)
+/* Verification hook: route the feature-cache accesses through functions the
+ * harness supplies, so that they become scheduling points. */
+int blake3_verif_atomic_load(int *cell);
+void blake3_verif_atomic_store(int *cell, int value);
+#undef ATOMIC_INT
+#undef ATOMIC_LOAD
+#undef ATOMIC_STORE
+#define ATOMIC_INT int
+#define ATOMIC_LOAD(x) blake3_verif_atomic_load(&(x))
+#define ATOMIC_STORE(x, y) blake3_verif_atomic_store(&(x), (y))
+#endif
+
 #define MAYBE_UNUSED(x) (void)((x))
 
 #if defined(IS_X86)
